@@ -22,6 +22,7 @@ def run(ctx: Ctx):
     # equal costs: the DP runs with unit costs and both result forms are rescaled by the common cost exactly once
     SC.equal_cost_shortcut(ctx, "S2")
     SC.lens_helper_total(ctx, "S3")
+    SC.lens_helper_table(ctx, "S3")
     SC.tokens_compared_as_integers(ctx, "S3")
     SC.kernel_value_table(ctx, "S5", "distance")
     SC.distance_buffers_are_floating(ctx, "S3")
